@@ -69,9 +69,9 @@ func runC17(c *Ctx) {
 			T := Term(at[0].Instr.(*ssa.Call))
 			c.Ob("C17-D1", "eio.Server.ServeHTTP/version-source", at[0].Pos(), strings.Contains(T, `Get("EIO")`), "the protocol version must be read from the EIO query parameter; parses "+T)
 			base := []Assume{{`s\.IsClosed\(\)`, false}, {`\(r\.ProtoMajor != 3\)`, true}, {`\(r\.ProtoMajor == 3\)`, false}}
-			r1, t1 := PrunedCanReach(fn, nil, append(base, Assume{regexpQuote("(" + T + "#1 != nil)"), true}), lookup, nil)
+			r1, t1 := PrunedCanReach(fn, nil, append(base, Assume{regexpQuote("(" + T + "#1 != nil)"), true}, Assume{regexpQuote("(" + T + "#1 == nil)"), false}), lookup, nil)
 			c.Ob("C17-D1", "eio.Server.ServeHTTP/bad-version-no-lookup[parse]", at[0].Pos(), !r1, "an unparsable EIO version still reaches the sid lookup / handshake: "+trailString(p, t1))
-			r2, t2 := PrunedCanReach(fn, nil, append(base, Assume{regexpQuote("(" + T + "#1 != nil)"), false}, Assume{regexpQuote("(" + T + "#0 != 4)"), true}, Assume{regexpQuote("(" + T + "#0 == 4)"), false}), lookup, nil)
+			r2, t2 := PrunedCanReach(fn, nil, append(base, Assume{regexpQuote("(" + T + "#1 != nil)"), false}, Assume{regexpQuote("(" + T + "#1 == nil)"), true}, Assume{regexpQuote("(" + T + "#0 != 4)"), true}, Assume{regexpQuote("(" + T + "#0 == 4)"), false}), lookup, nil)
 			c.Ob("C17-D1", "eio.Server.ServeHTTP/bad-version-no-lookup[mismatch]", at[0].Pos(), !r2, "an unsupported EIO version still reaches the sid lookup / handshake: "+trailString(p, t2))
 			// the compared constant is the protocol version
 			cmp := findInstrs(fn, func(in ssa.Instruction) bool {
